@@ -829,7 +829,6 @@ func (bc *BlockChain) WriteBlockWithState(block *types.Block, state *state.State
 		}
 	}
 
-	rawdb.WriteTxLookupEntries(batch, block)
 	if err := batch.Write(); err != nil {
 		return err
 	}
@@ -852,7 +851,6 @@ func (bc *BlockChain) reorg(oldBlock, newBlock *types.Block) error {
 		commonBlock *types.Block
 
 		deletedTxs types.Transactions
-		addedTxs   types.Transactions
 
 		deletedLogs []*types.Log
 		rebirthLogs []*types.Log
@@ -931,26 +929,28 @@ func (bc *BlockChain) reorg(oldBlock, newBlock *types.Block) error {
 		logging.Error("Impossible reorg, please file an issue", "oldnum", oldBlock.Number(), "oldhash", oldBlock.Hash().String(), "newnum", newBlock.Number(), "newhash", newBlock.Hash().String())
 	}
 
+	// The switch to the new branch is one atomic batch: the lookups of the dropped
+	// blocks' transactions go away, and every new block gets its number->hash entry,
+	// its transaction lookups and the head markers. Written one by one, a crash in
+	// between leaves a number->hash index that is not parent-linked up to the head,
+	// or lookups that name a dropped block for good.
+	batch := bc.db.NewBatch()
+	for _, tx := range deletedTxs {
+		rawdb.DeleteTxLookupEntry(batch, tx.Hash())
+	}
+	for i := len(newChain) - 1; i >= 0; i-- {
+		writeHeadBlock(batch, newChain[i])
+	}
+	if err := batch.Write(); err != nil {
+		return err
+	}
 	for i := len(newChain) - 1; i >= 0; i-- {
 		// insert the block in the canonical way, re-writing history
-		bc.insert(newChain[i])
+		bc.setHeadBlock(newChain[i])
 
 		// Collect reborn logs due to chain reorg
 		collectLogs(newChain[i].Hash(), false)
-
-		// write lookup entries for hash based transaction/receipt searches
-		rawdb.WriteTxLookupEntries(bc.db, newChain[i])
-		addedTxs = append(addedTxs, newChain[i].Transactions()...)
 	}
-	// calculate the difference between deleted and added transactions
-	diff := types.TxDifference(deletedTxs, addedTxs)
-	// When transactions get deleted from the database that means the
-	// receipts that were created in the fork must also be deleted
-	batch := bc.db.NewBatch()
-	for _, tx := range diff {
-		rawdb.DeleteTxLookupEntry(batch, tx.Hash())
-	}
-	batch.Write()
 
 	go func() {
 		if len(deletedLogs) > 0 {
@@ -971,8 +971,32 @@ func (bc *BlockChain) reorg(oldBlock, newBlock *types.Block) error {
 // Note, this function assumes that the `mu` mutex is held!
 func (bc *BlockChain) insert(block *types.Block) {
 	// Add the block to the canonical chain number scheme and mark as the head
-	bc.hc.SetCurrentHeader(block.Header())
-	bc.updateHeadBlock(block)
+	batch := bc.db.NewBatch()
+	writeHeadBlock(batch, block)
+	if err := batch.Write(); err != nil {
+		logging.Crit("Failed to write the chain head", "number", block.NumberU64(), "hash", block.Hash().String(), "err", err)
+	}
+	bc.setHeadBlock(block)
+}
+
+// writeHeadBlock puts into one batch everything that makes block the persistent
+// head: the head header marker, the number->hash entry, the transaction lookups
+// and the head block marker. They must become durable together.
+func writeHeadBlock(batch youdb.Batch, block *types.Block) {
+	rawdb.WriteHeadHeaderHash(batch, block.Hash())
+	rawdb.WriteCanonicalHash(batch, block.Hash(), block.NumberU64())
+	rawdb.WriteTxLookupEntries(batch, block)
+	rawdb.WriteHeadBlockHash(batch, block.Hash())
+}
+
+// setHeadBlock moves the in-memory head to a block whose head markers are written.
+func (bc *BlockChain) setHeadBlock(block *types.Block) {
+	bc.hc.currentHeader.Store(block.Header())
+	bc.currentBlock.Store(block)
+
+	//send to event bus
+	evt := InsertBlockEvent{Block: block}
+	go bc.eventMux.Post(evt)
 }
 
 func (bc *BlockChain) updateHeadBlock(block *types.Block) {
